@@ -226,7 +226,7 @@ def load_mri_app():
     sp = Mod(dict(linop=lin, prox=prox, app=app, get_device=snp.BACKEND.get_device, to_device=snp.BACKEND.to_device,
                   cpu_device=snp.BACKEND.cpu_device, rss=util.rss), "sigpy")
     ns = base_ns(sp=sp, linop=mod)
-    src.load_module(MRI_APP, ns, only=["_estimate_weights", "SenseRecon", "L1WaveletRecon", "TotalVariationRecon"])
+    src.load_module(MRI_APP, ns)          # the whole module: helpers a change adds next to the recon classes are executed too
     return Mod(ns, MRI_APP), mod, lin, prox
 
 
